@@ -383,6 +383,9 @@ func (p c11P) labels() []string {
 func init() { Registry["C11"] = runC11 }
 
 func runC11(ctx Ctx) int {
+	if rc, ok := concDispatch("C11", ctx); ok {
+		return rc
+	}
 	world.PinClock()
 	run := ev.NewRun("C11")
 	run.Rule = "every assignment of 16 configuration dimensions (issuer static / with path / trailing slash / host-derived with path variants / Forwarded-derived; each of the 6 endpoints default / custom path with and without leading slash / trailing slash / deep / external URL; WantAuthRequestsSigned in 11 spellings (xs:boolean and look-alikes: True, TRUE, t, T, yes); encryption algorithm; organisation; contact; validity; cache duration; metadata signing; 3 request Hosts; response-key rotation between metadata fetches; a failing signing-key lookup (5 kinds) at a metadata request that follows another tenant's request, also after a key rotation) with <= k deviations (k=2 quick, 3 thorough). One execution = one provider and a fixed history of ~14 requests: metadata, a conformant request of each kind addressed to each advertised location and sent to the route it maps onto, SSO error reply, callback success/failure, certificate endpoint, unsigned request"
@@ -436,6 +439,13 @@ func runC11(ctx Ctx) int {
 	run.Sample(items[0])
 	run.Sample(items[len(items)/2])
 	run.Sample(items[len(items)-1])
+	{
+		cb, cs := 1, 90
+		if ev.Tier() == "thorough" {
+			cb, cs = 2, 1200
+		}
+		runConc(run, "C11", cb, cs)
+	}
 	finishCapped(run, complete, fmt.Sprintf("%d configurations (k<=%d over %d dims), each a history of ~14 requests on one provider", len(items), k, len(c11Space.Dims)))
 	return run.Finish()
 }
